@@ -80,6 +80,9 @@ KINDS = {
     "dec_args": ("com.myapp.dec_args", False, True),
     "dec_kw": ("com.myapp.dec_kw", True, True),
     "dec_sub": ("com.myapp.dec_sub", True, True),
+    # one class under two stacked @wamp.error decorators: the URI registered for the class is the one
+    # the library's own define() maps back to it (the decorator applied first, i.e. the inner one)
+    "dec_two": ("com.myapp.dec_two_inner", True, True),
     # a registered class that derives from TypeError (also run behind check_types=True)
     "dec_type": ("com.myapp.dec_type", True, True),
     "expl_args": ("com.myapp.expl_args", False, True),
@@ -270,6 +273,11 @@ def classes():
     class DecInvalid(_Kw):
         pass
 
+    @wamp.error("com.myapp.dec_two_outer")
+    @wamp.error("com.myapp.dec_two_inner")
+    class DecTwo(_Kw):
+        pass
+
     class ExplExceeded(_Kw):
         pass
 
@@ -343,17 +351,17 @@ def classes():
                      AppDef=AppDef, DecType=DecType,
                      UndefCustom=UndefCustom, UndefKw=UndefKw, UndefSubDef=UndefSubDef, RtKw=RtKw, Fixed2=Fixed2,
                      NoArgs=NoArgs, Raises=Raises, KwOnly=KwOnly, Falsy=Falsy,
-                     DecInvalid=DecInvalid, ExplExceeded=ExplExceeded, Old=Old,
+                     DecInvalid=DecInvalid, ExplExceeded=ExplExceeded, Old=Old, DecTwo=DecTwo,
                      ApplicationError=ApplicationError))
     return _CLS
 
 
-KIND_CLASS = {"dec_args": "DecArgs", "dec_kw": "DecKw", "dec_sub": "DecSub",
+KIND_CLASS = {"dec_args": "DecArgs", "dec_kw": "DecKw", "dec_sub": "DecSub", "dec_two": "DecTwo",
               "expl_args": "ExplArgs", "expl_kw": "ExplKw", "appsub": "AppSub",
               "appsub_def": "AppDef", "dec_type": "DecType",
               "undef_custom": "UndefCustom", "undef_kw": "UndefKw", "undef_subdef": "UndefSubDef",
               "dec_invalid": "DecInvalid", "expl_exceeded": "ExplExceeded"}
-DECORATED = ("dec_args", "dec_kw", "dec_sub", "dec_invalid", "dec_type")
+DECORATED = ("dec_args", "dec_kw", "dec_sub", "dec_invalid", "dec_type", "dec_two")
 EXPLICIT = ("expl_args", "expl_kw", "expl_exceeded")
 
 
@@ -644,6 +652,7 @@ FAMILY = {"app": "apperror", "app2": "apperror", "appsub": "apperror-subclass",
           "appsub_def": "apperror-subclass-also-defined", "dec_type": "decorated-typeerror",
           "undef_typeerror": "undefined",
           "dec_args": "decorated", "dec_kw": "decorated", "dec_sub": "decorated-subclass",
+          "dec_two": "decorated-twice",
           "expl_args": "explicit", "expl_kw": "explicit", "dec_invalid": "decorated-premapped-uri",
           "expl_exceeded": "explicit-premapped-uri", "undef_runtime": "undefined",
           "undef_keyerror": "undefined", "undef_custom": "undefined", "undef_kw": "undefined",
